@@ -40,17 +40,9 @@ func (h *NFSProcedureHandler) handleLookup(body io.Reader, reply *RPCReply, auth
 
 	if !isDir {
 		// R4: Copy attrs under RLock
-		node.mu.RLock()
-		if node.attrs == nil {
-			node.mu.RUnlock()
-			return nfsErrorWithPostOp(reply, NFSERR_IO), nil
-		}
-		nodeAttrsCopy := *node.attrs
-		node.mu.RUnlock()
 		var buf bytes.Buffer
 		xdrEncodeUint32(&buf, NFSERR_NOTDIR)
-		xdrEncodeUint32(&buf, 1)
-		if err := encodeFileAttributes(&buf, &nodeAttrsCopy); err != nil {
+		if err := h.encodeCurrentAttrs(&buf, node); err != nil {
 			return nfsErrorWithPostOp(reply, NFSERR_IO), nil
 		}
 		reply.Data = buf.Bytes()
@@ -68,17 +60,9 @@ func (h *NFSProcedureHandler) handleLookup(body io.Reader, reply *RPCReply, auth
 			h.server.logger.Printf("LOOKUP: '%s' not found: %v", lookupPath, err)
 		}
 		// R4: Copy attrs under RLock
-		node.mu.RLock()
-		if node.attrs == nil {
-			node.mu.RUnlock()
-			return nfsErrorWithPostOp(reply, NFSERR_IO), nil
-		}
-		nodeAttrsCopy := *node.attrs
-		node.mu.RUnlock()
 		var buf bytes.Buffer
 		xdrEncodeUint32(&buf, mapError(err))
-		xdrEncodeUint32(&buf, 1)
-		if err := encodeFileAttributes(&buf, &nodeAttrsCopy); err != nil {
+		if err := h.encodeCurrentAttrs(&buf, node); err != nil {
 			return nfsErrorWithPostOp(reply, NFSERR_IO), nil
 		}
 		reply.Data = buf.Bytes()
@@ -94,10 +78,6 @@ func (h *NFSProcedureHandler) handleLookup(body io.Reader, reply *RPCReply, auth
 	lookupNode.mu.RLock()
 	lookupAttrsCopy := *lookupNode.attrs
 	lookupNode.mu.RUnlock()
-	node.mu.RLock()
-	nodeAttrsCopy := *node.attrs
-	node.mu.RUnlock()
-
 	var buf bytes.Buffer
 	xdrEncodeUint32(&buf, NFS_OK)
 	xdrEncodeFileHandle(&buf, handle)
@@ -105,12 +85,25 @@ func (h *NFSProcedureHandler) handleLookup(body io.Reader, reply *RPCReply, auth
 	if err := encodeFileAttributes(&buf, &lookupAttrsCopy); err != nil {
 		return nfsErrorWithPostOp(reply, NFSERR_IO), nil
 	}
-	xdrEncodeUint32(&buf, 1)
-	if err := encodeFileAttributes(&buf, &nodeAttrsCopy); err != nil {
+	if err := h.encodeCurrentAttrs(&buf, node); err != nil {
 		return nfsErrorWithPostOp(reply, NFSERR_IO), nil
 	}
 	reply.Data = buf.Bytes()
 	return reply, nil
+}
+
+// encodeCurrentAttrs appends the post_op_attr LOOKUP reports for the directory handle itself.
+// The attributes are read from the backend (as every other procedure does) so that they
+// cannot be staler than the handle; when the object can no longer be examined the reply
+// carries no attributes rather than those recorded when the handle was issued.
+func (h *NFSProcedureHandler) encodeCurrentAttrs(buf *bytes.Buffer, node *NFSNode) error {
+	attrs, err := h.server.handler.GetAttr(node)
+	if err != nil || attrs == nil {
+		encodeNoPostOpAttr(buf)
+		return nil
+	}
+	xdrEncodeUint32(buf, 1)
+	return encodeFileAttributes(buf, attrs)
 }
 
 // handleReadlink handles NFSPROC3_READLINK - read symbolic link
